@@ -13,7 +13,8 @@ What the model cannot exhibit (stated, not hidden): memory-level data races on `
 is searched with `-race` builds by the driver, not proved (level: partial for shared state).
 -/
 import Argot.Proofs.MapPar
--- import Argot.Proofs.ReportWriter
+import Argot.Proofs.ReportWriter
+import Argot.Gen.T9GoStmts
 
 namespace Argot.MapPar
 
@@ -214,3 +215,122 @@ example : ((runLabels (fun x : Nat => x * 10) [1, 2, 3] 2
 #print axioms eventually_returns
 
 end Argot.MapPar
+
+
+/-! ## The report-summaries writer goroutine of `BuildGraph` (F6) -/
+
+namespace Argot.ReportWriter
+
+/-- **If the writer is joined** (anywhere before `BuildGraph` returns), then under every schedule,
+when `BuildGraph` returns the file contains every summary present at spawn time, in iteration
+order, no write was attempted on the closed file, and the writer goroutine has returned. -/
+theorem report_complete_if_joined (jn : Join) (S : List Nat) (k : Nat) (σ : St) (hj : jn ≠ .none)
+    (h : Reachable jn S k σ) (hr : σ.main = .ret) : σ.written = S ∧ σ.lost = [] ∧ σ.writer = .done := by
+  have I := inv_reachable h
+  have hw := I.joined hj (Or.inr hr)
+  have hl := I.joined_lost hj
+  have hp := I.prog
+  rw [hw] at hp
+  exact ⟨hp hl, hl, hw⟩
+
+/-- joined ⇒ at no moment of any schedule is a write attempted after `Close` -/
+theorem no_write_after_close_if_joined (jn : Join) (S : List Nat) (k : Nat) (σ : St) (hj : jn ≠ .none)
+    (h : Reachable jn S k σ) : σ.lost = [] := (inv_reachable h).joined_lost hj
+
+/-- joined **before STEP 3** ⇒ no map write of STEP 3 overlaps the writer's iteration over the map -/
+theorem race_free_if_joined_before_link (S : List Nat) (k : Nat) (σ : St)
+    (h : Reachable .beforeLink S k σ) : σ.race = false := ((inv_reachable h).early rfl).2
+
+/-- The property's own wording for this goroutine: no unsynchronised overlap, and "report files are
+complete when the analysis returns". -/
+def ReportCompleteAndRaceFree (jn : Join) : Prop :=
+  ∀ S k σ, Reachable jn S k σ → σ.race = false ∧ (σ.main = .ret → σ.written = S ∧ σ.lost = [])
+
+/-- **negation witness, current code (no join)**: a 4-step schedule in which `BuildGraph` has returned,
+the file is closed and empty, and the writer's write is lost. -/
+theorem unjoined_incomplete : ∃ σ, Reachable .none [7] 0 σ ∧ σ.main = .ret ∧ σ.written = [] ∧ σ.lost = [7] :=
+  ⟨_, runLabels_reachable (σ := init) [.spawn, .linkDone, .close, .write] .init rfl, by decide⟩
+
+/-- **negation witness, current code**: 2 steps — STEP 3 inserts into `g.Summaries` while the writer iterates it -/
+theorem unjoined_race : ∃ σ, Reachable .none [7] 1 σ ∧ σ.race = true :=
+  ⟨_, runLabels_reachable (σ := init) [.spawn, .linkWrite] .init rfl, by decide⟩
+
+/-- joining only at the end (after STEP 3) makes the file complete but leaves the overlap -/
+theorem late_join_race : ∃ σ, Reachable .beforeReturn [7] 1 σ ∧ σ.race = true :=
+  ⟨_, runLabels_reachable (σ := init) [.spawn, .linkWrite] .init rfl, by decide⟩
+
+/-- the property holds for this goroutine **iff** it is joined before STEP 3 -/
+theorem report_ok_iff_joined_early (jn : Join) : ReportCompleteAndRaceFree jn ↔ jn = .beforeLink := by
+  constructor
+  · intro h
+    cases jn with
+    | beforeLink => rfl
+    | none =>
+      obtain ⟨σ, hr, hrace⟩ := unjoined_race
+      have := (h _ _ σ hr).1; rw [hrace] at this; cases this
+    | beforeReturn =>
+      obtain ⟨σ, hr, hrace⟩ := late_join_race
+      have := (h _ _ σ hr).1; rw [hrace] at this; cases this
+  · rintro rfl S k σ h
+    refine ⟨race_free_if_joined_before_link S k σ h, fun hr => ?_⟩
+    have := report_complete_if_joined .beforeLink S k σ (by simp) h hr
+    exact ⟨this.1, this.2.1⟩
+
+/-! ### tie T9: what the source says today (regenerated on every run) -/
+
+/-- where `BuildGraph` joins its goroutine in the current source; no goroutine at all = synchronous = joined early -/
+def currentJoin : Join :=
+  match Argot.Gen.T9.buildGraphGo with
+  | [] => .beforeLink
+  | g :: _ => Join.ofCode g.join
+
+/-- the shape the two models assume, re-checked against the regenerated table: the translator parsed
+everything; `BuildGraph` starts at most one goroutine and it is the one writing `summariesFile`, closed
+by a `defer`; every goroutine of `NewAnalyzerState` follows Add / deferred Done / Wait; `MapParallel`
+makes two unbuffered channels `in`, `out`, starts three kinds of goroutine, clamps `numRoutines ≤ 0`
+to 1, and closes `out` right after `wg.Wait()`. -/
+theorem t9_shape :
+    Argot.Gen.T9.unparsed = false ∧
+    Argot.Gen.T9.buildGraphGo.length ≤ 1 ∧ Argot.Gen.T9.buildGraphGo.all (·.usesFile) = true ∧
+    (Argot.Gen.T9.buildGraphGo ≠ [] → Argot.Gen.T9.buildGraphDefersClose = true) ∧
+    Argot.Gen.T9.newStateGo.all (fun g => g.wgProtocol && g.join == 1) = true ∧
+    Argot.Gen.T9.mapParallelChans = [("in", false), ("out", false)] ∧
+    Argot.Gen.T9.mapParallelGo.length = 3 ∧
+    Argot.Gen.T9.mapParallelClampsWorkers = true ∧ Argot.Gen.T9.mapParallelClosesAfterWait = true := by
+  decide
+
+/-- the verdict for the current source: the writer part of C20 holds iff the regenerated table says
+"joined before STEP 3". (On the pinned tree `currentJoin = .none`: F6; the oracle prints the code and
+the driver replays `unjoined_incomplete` / `unjoined_race` on the real tool.) -/
+theorem current_code_verdict : ReportCompleteAndRaceFree currentJoin ↔ currentJoin = .beforeLink :=
+  report_ok_iff_joined_early currentJoin
+
+#print axioms report_complete_if_joined
+#print axioms no_write_after_close_if_joined
+#print axioms race_free_if_joined_before_link
+#print axioms unjoined_incomplete
+#print axioms unjoined_race
+#print axioms late_join_race
+#print axioms report_ok_iff_joined_early
+#print axioms t9_shape
+#print axioms current_code_verdict
+
+end Argot.ReportWriter
+
+/-! ## The step group of `NewAnalyzerState` -/
+
+namespace Argot.StepGroup
+
+/-- under every schedule of `k` steps: no negative-counter crash, and when `wg.Wait()` has returned
+all `k` step goroutines were started and have returned -/
+theorem steps_joined (k : Nat) (σ : St) (h : Reachable k σ) :
+    σ.err = false ∧ (σ.main = .after → σ.ts.length = k ∧ ∀ t ∈ σ.ts, t = .done) := by
+  have I := inv_reachable h
+  refine ⟨I.noerr, fun hm => ⟨I.forked (by simp [hm]), ?_⟩⟩
+  have := I.after hm
+  rw [I.wg] at this
+  exact running_zero.1 this
+
+#print axioms steps_joined
+
+end Argot.StepGroup
